@@ -289,9 +289,13 @@ fn main() {
             for n in 1..=3usize {
                 cfgs.push((r, n));
             }
-            if r == 1 << 32 || r == u64::MAX {
+            if r == u64::MAX {
                 // a long initial list: the oldest sets are 17 epochs old from the start
                 cfgs.push((r, 18));
+            }
+            if r == 1 << 32 {
+                // a very long one: 69 newer sets from the start
+                cfgs.push((r, 70));
             }
             if r == 1 {
                 // n = 0 encodes the repeated-initial-set configuration
@@ -305,7 +309,7 @@ fn main() {
         let mut o = Opts::new(tier, if thorough { 13 } else { 9 });
         o.min_depth = 4;
         o.xcheck = tier == "thorough";
-        o.rule = "retention in {0,1,2,3,7,2^32,2^32+1,u64::MAX} x 1-3 initial sets, and retention in {16,17,2^32,u64::MAX} x 18 initial sets (two rotations on top); all rotation histories where each rotation is authorised by ANY installed set, with and without operator bypass, kept (not rolled back) validate_proof calls by any installed set, rotations back to every set installed earlier (refused), plus bounded ledger advancement; explored to fixpoint up to epoch 7 (quick) / 10 (thorough). In every reached state, for EVERY installed set: validate_proof, approve_messages of a fresh id, approve_messages of a batch that is already approved, non-bypass rotation and bypass rotation are executed on a snapshot and compared with `epoch - e <= retention` (non-bypass rotation: e == epoch)".into();
+        o.rule = "retention in {0,1,2,3,7,2^32,2^32+1,u64::MAX} x 1-3 initial sets, and retention in {16,17,u64::MAX} x 18 initial sets and 2^32 x 70 initial sets (two rotations on top); all rotation histories where each rotation is authorised by ANY installed set, with and without operator bypass, kept (not rolled back) validate_proof calls by any installed set, rotations back to every set installed earlier (refused), plus bounded ledger advancement; explored to fixpoint up to epoch 7 (quick) / 10 (thorough). In every reached state, for EVERY installed set: validate_proof, approve_messages of a fresh id, approve_messages of a batch that is already approved, non-bypass rotation and bypass rotation are executed on a snapshot and compared with `epoch - e <= retention` (non-bypass rotation: e == epoch)".into();
         (s, o)
     });
 }
